@@ -33,6 +33,8 @@ enum V {
     T(Vec<V>),
     L(Vec<V>),
     R(i64, i64, bool),
+    /// null (only as the missing partner in the last pair of `gen_pairs`)
+    N,
     /// order-logging object `mk_box(v)`: a map `{v}` whose metamap defines `@+`, `@*`, `@<`
     B(Box<V>),
 }
@@ -53,6 +55,7 @@ impl V {
             V::T(xs) => tuple_lit(xs),
             V::L(xs) => format!("[{}]", xs.iter().map(|x| x.koto()).collect::<Vec<_>>().join(", ")),
             V::R(a, b, incl) => format!("({}{}{})", a, if *incl { "..=" } else { ".." }, b),
+            V::N => "null".into(),
             V::B(v) => format!("mk_box({})", v.koto()),
         }
     }
@@ -63,6 +66,7 @@ impl V {
             V::T(xs) => format!("(t{})", xs.iter().map(|x| format!(" {}", x.canon())).collect::<String>()),
             V::L(xs) => format!("(l{})", xs.iter().map(|x| format!(" {}", x.canon())).collect::<String>()),
             V::R(a, b, incl) => format!("(r {} {} {})", a, b, *incl as u8),
+            V::N => "null".into(),
             V::B(v) => format!("(m (sx76 {}))", v.canon()),
         }
     }
@@ -98,6 +102,9 @@ enum Src {
     /// objects with only `@iterator`, returning a fresh `@next` object / a tuple
     ItObj(Vec<V>),
     ItList(Vec<V>),
+    /// generator whose body uses ONE iterator through two registers: `for a in it` and `b = it.next()`
+    /// in the body; yields the pairs `(a, b)` (the aliasing has to survive `koto.copy`, /repo ec30e2c)
+    GenPairs(Vec<V>),
 }
 
 #[derive(Clone, Debug, PartialEq)]
@@ -393,6 +400,10 @@ fn render_src(s: &Src, id: usize, defs: &mut Vec<String>) -> (String, String) {
         Src::ObjOther(xs) => (format!("mk_obj_other({}, {})", id, tuple_lit(xs)), format!("(obj {}{})", id, canon_list(xs))),
         Src::ItObj(xs) => (format!("mk_itobj({}, {})", id, tuple_lit(xs)), format!("(obj {}{})", id, canon_list(xs))),
         Src::ItList(xs) => (format!("mk_itlist({})", tuple_lit(xs)), format!("(seq{})", canon_list(xs))),
+        Src::GenPairs(xs) => {
+            let pairs: Vec<V> = xs.chunks(2).map(|c| V::T(vec![c[0].clone(), c.get(1).cloned().unwrap_or(V::N)])).collect();
+            (format!("gen_pairs({}, {})", id, tuple_lit(xs)), format!("(gen {}{})", id, canon_list(&pairs)))
+        }
         Src::Rep(v, n) => (format!("iterator.repeat({}, {})", v.koto(), n), format!("(rep {} {})", v.canon(), n)),
         Src::Once(v) => (format!("iterator.once({})", v.koto()), format!("(rep {} 1)", v.canon())),
         Src::RepInf(v) => (format!("iterator.repeat({})", v.koto()), format!("(repinf {})", v.canon())),
@@ -525,7 +536,8 @@ impl Pipe {
             | Src::ObjFresh(x)
             | Src::ObjOther(x)
             | Src::ItObj(x)
-            | Src::ItList(x) => !x.is_empty(),
+            | Src::ItList(x)
+            | Src::GenPairs(x) => !x.is_empty(),
             Src::Map(x) => !x.is_empty(),
             Src::Range(a, b, incl) => a < b || (a == b && *incl),
             Src::Str(s) | Src::Bytes(s) | Src::StrSlice(s) => !s.is_empty(),
@@ -624,6 +636,16 @@ export gen = |k, xs|
   for i, x in xs.enumerate()
     emit 0, k, i
     yield x
+  emit 2, k
+
+export gen_pairs = |k, xs|
+  it = xs.iter()
+  i = 0
+  for a in it
+    emit 0, k, i
+    i += 1
+    b = it.next()
+    yield (a, if b then b.get() else null)
   emit 2, k
 
 export mk_genobj = |k, xs|
@@ -827,6 +849,7 @@ fn persistent_src(s: &Src) -> bool {
             | Src::ObjSelf(_)
             | Src::ObjFresh(_)
             | Src::ObjOther(_)
+            | Src::GenPairs(_)
     )
 }
 
@@ -1014,7 +1037,7 @@ fn elems(flavour: usize, n: usize, base: i64) -> Vec<V> {
         .collect()
 }
 
-const SRC_KINDS: usize = 21;
+const SRC_KINDS: usize = 22;
 
 /// Start values of range sources (selected by the flavour index): small, negative, straddling the
 /// i32 limits (KRange stores bounds that fit in i32 compactly and everything else in the 64-bit
@@ -1068,6 +1091,7 @@ fn source(kind: usize, n: usize, flavour: usize, base: i64) -> Src {
         18 => Src::ObjOther(xs),
         19 => Src::ItObj(xs),
         20 => Src::ItList(xs),
+        21 => Src::GenPairs(xs),
         _ => {
             if n == 1 {
                 Src::Once(V::I(base))
@@ -1582,6 +1606,9 @@ fn main() {
             // copy of a cycle taken in the middle of its second repetition (seeded C13-mut2)
             (Pipe::Cycle(bx(Pipe::Src(Src::Tuple(ints(3))))), Cons::CopyOps(vec![true; 5], copy_post(false))),
             (Pipe::Cycle(bx(g(4))), Cons::CopyOps(vec![true; 7], copy_post(false))),
+            // copy of a generator that uses one iterator through two registers (F-C13-6, fixed)
+            (Pipe::Src(Src::GenPairs(ints(6))), Cons::CopyOps(vec![true; 1], copy_post(false))),
+            (Pipe::Windows(2, bx(Pipe::Src(Src::GenPairs(ints(7))))), Cons::CopyOps(vec![true; 2], copy_post(false))),
             // copies of other adaptor states: filled window cache, pending separator, cached peeks
             (Pipe::Windows(2, bx(g(4))), Cons::CopyOps(vec![true; 2], copy_post(false))),
             (Pipe::Intersperse(V::I(0), bx(g(3))), Cons::CopyOps(vec![true; 2], copy_post(false))),
@@ -1665,7 +1692,7 @@ fn main() {
             for flavour in 0..RANGE_BASES.len() {
                 // element flavours for sources that carry arbitrary elements, start values for ranges
                 let ok = flavour == 0
-                    || (flavour < 7 && matches!(kind, 0 | 1 | 2 | 3 | 4 | 8 | 9 | 14 | 16 | 19))
+                    || (flavour < 7 && matches!(kind, 0 | 1 | 2 | 3 | 4 | 8 | 9 | 14 | 16 | 19 | 21))
                     || matches!(kind, 5 | 6);
                 if !ok {
                     continue;
@@ -1762,8 +1789,9 @@ fn main() {
     //     the end of the source (second repetition of `cycle`, drained `chain` halves, emptied window
     //     caches …) — optionally after a call from the back, and then copy and original are advanced
     //     in an interleaved order, from both ends
-    let sweep_sources: [(usize, usize); 14] = [
+    let sweep_sources: [(usize, usize); 19] = [
         (1, 0), (2, 0), (0, 2), (5, 2), (6, 5), (7, 0), (12, 0), (9, 0), (8, 0), (10, 0), (11, 0), (13, 0), (14, 0), (15, 0),
+        (21, 0), (4, 0), (3, 0), (17, 0), (19, 0),
     ];
     for (kind, flavour) in sweep_sources {
         for n in 0..=max_len {
@@ -1801,7 +1829,7 @@ fn main() {
         Ad::Keep("even"),
         Ad::Reversed,
     ];
-    for (kind, flavour) in [(2usize, 0usize), (1, 0), (0, 2)] {
+    for (kind, flavour) in [(2usize, 0usize), (1, 0), (0, 2), (21, 0)] {
         for n in [2usize, 3] {
             for a1 in &stateful {
                 for a2 in &stateful {
@@ -1920,7 +1948,7 @@ fn main() {
         json!({"adaptor_instances": ads.len(), "consumer_instances": conss.len(), "source_kinds": SRC_KINDS,
                "source_lengths": format!("0..={}", max_len),
                "depth0": "consumers x kinds x lengths x flavours",
-               "depth1": "adaptor instances x kinds x lengths x 20 consumers; copy sweep: adaptor instances x 14 sources x lengths x copy position k=0..2n+1 x {forward, with back calls}",
+               "depth1": "adaptor instances x kinds x lengths x 20 consumers; copy sweep: adaptor instances x 19 sources x lengths x copy position k=0..2n+1 x {forward, with back calls}",
                "depth2": format!("adaptor instances^2 x kinds {:?} x lengths {:?} x to_list", d2_kinds, d2_lens)}),
     );
 
